@@ -162,12 +162,14 @@ family(
         _t('a', [P('x')]),
         _t('b', [], [('a', 'class')], ['a']),
         _t('top', [], [('lo::b', 'name'), ('a', 'class')], ['a'], registry_pulls=['lo::b']),
+        # a task whose NAME is the name of the namespace it reads from (its full name is a prefix of its input's)
+        _t('lo', [], [('lo::b', 'name')], [], registry_pulls=['lo::b']),
         # reads the same task from TWO namespaces below it: which mount carries which computation matters
         _t('cmp', [], [('p1::a', 'name'), ('p2::a', 'name')], [], registry_pulls=['p1::a', 'p2::a']),
     ],
     rcs={
         'v1': dict(build='nested-files', mounts=[dict(ns=None, values={'x': 1}, tasks=['a', 'b'])]),
-        'v2': dict(build='nested-files', mounts=[dict(ns=None, values={'x': 2}, tasks=['a', 'top']),
+        'v2': dict(build='nested-files', mounts=[dict(ns=None, values={'x': 2}, tasks=['a', 'top', 'lo']),
                                                  dict(ns='lo', values={'x': 1}, tasks=['a', 'b'])]),
         'v3': dict(build='nested-files', mounts=[dict(ns=None, values={'x': 2}, tasks=['a', 'top']),
                                                  dict(ns='lo', values={'x': 2}, tasks=['a', 'b'])]),
